@@ -1,4 +1,5 @@
 import St4sd.Model.Ctrl
+import St4sd.Model.CtrlSplit
 /-!
 # C02 — machine-checked counterexample to the full-strength confluence statement
 
@@ -61,5 +62,42 @@ theorem not_confluent :
 /-- … and even what `run()` reports differs between the two orderings. -/
 theorem verdict_depends_on_schedule :
     verdict wfW (run wfW late) = .noFinishedLeaf ∧ verdict wfW (run wfW early) = .ok := by decide +kernel
+
+/-! ## the external stage-completion hook, before the repair `fixes/C02-completion-hook-unstaged.diff`
+
+`c0 → c1` in one stage.  `c0` is running, `c1` waits for it (not staged in).  The package's `IsStageComplete`
+hook returns `True`.  The closure of `_observe_completionCheck` used to call `_stopComponents` only
+(`Ctrl.stopComponents`): `finish(SHUTDOWN)` on both.  `c0` is killed, ends SHUTDOWN and is recorded.  `c1`
+becomes SHUTDOWN at once - but the controller never subscribed to it, so no notification ever reaches
+`finishedCheck`, it is never added to `comp_done`, the scheduler skips it (its state is final) and the loop
+of `Controller.run()` never ends.  (Rediscovered by the generator of `harness/c02.py` on the real Controller;
+the schedule is its third corpus entry.) -/
+
+def wfH : Wf :=
+  { n := 2
+    cdef := fun i => match i with
+      | 0 => {}
+      | 1 => { preds := [0] }
+      | _ => {}
+    order := [0, 1] }
+
+/-- scheduler pass, the OLD hook, the killed task of `c0` exits, its notification is handled, two passes -/
+def hookOld : St :=
+  [Op.exit 0, .fin 0, .sched, .sched].foldl (step wfH) (stopComponents wfH (run wfH [.sched]) 0)
+
+/-- nothing can happen any more (no live task, nothing queued, nothing to schedule), both components are
+SHUTDOWN, and yet `c1` is not in `comp_done`: the stage loop does not terminate -/
+theorem old_hook_strands_unstaged_component :
+    quiescent wfH hookOld = true ∧
+    (List.range 2).map (fun c => (hookOld.comp c).ctrl) = [some .shutdown, some .shutdown] ∧
+    hookOld.done 0 = true ∧ hookOld.done 1 = false ∧ (hookOld.comp 1).staged = false ∧
+    stageDone wfH hookOld = false := by decide +kernel
+
+/-- the same history with the hook as it is now (`SOp.complete k` = `HOp.hook k` = `stopStage`): `c1` is
+fake-finished, its notification reaches the controller and the stage completes -/
+theorem repaired_hook_completes :
+    let s := hrun wfH [.op .sched, .hook 0, .op (.exit 0), .op (.fin 0), .op (.fin 1), .op .sched]
+    quiescent wfH s = true ∧ stageDone wfH s = true ∧
+    (List.range 2).map (fun c => (s.comp c).ctrl) = [some .shutdown, some .shutdown] := by decide +kernel
 
 end St4sd.C02W
